@@ -323,6 +323,8 @@ def check(case, obs, tally):
                     break
                 if end is None:
                     break
+                if kind_eff == "error":
+                    break  # a server-generated error response announces "connection: close": nothing behind it is taken up
                 prev_end = end
     else:
         rx = obs.reactor
